@@ -13,8 +13,11 @@
       an attached sequence;
     * result bounds: the query range, or with `expand_location_to_children` (relaxed mode) the hull of the range
       and the kept genes / feature collections; for id queries the hull of the source bounds and the kept members;
-    * the result's sequence is the source's sequence restricted to the new bounds, every kept member keeps its
-      coordinates / identifiers / guid, and a member's own sequence is the source's bases over member ∩ new range.
+    * the result's sequence is the source's sequence restricted to the new bounds — to the part of them on which
+      the collection HAS sequence (`locRange`: its bounds cut to the range of the parent's sequence; bounds may be
+      explicit and narrower than, wider than or off the sequence) —, every kept member keeps its coordinates /
+      strand / identifiers / guid, and a member's own sequence is the source's bases over member ∩ new range;
+    * sources the constructors refuse (`constructible`) are outside the quantifier.
 
   Abstract data (the "children" of DESIGN 4/C09):
     child      = (kind, start, end, coding, guid, identifiers, grandchildren)
